@@ -80,7 +80,7 @@ def _case(draw):
     case = dict(kind=kind, grid=g, nvars=nvars)
     if kind in ('cell', 'funceval', 'copy'):
         case['vars'] = [dict(init=draw(gen.cell_interior(d, styles=('generic', 'int', 'quarter', 'pos', 'zeros'), lo=-2, hi=2)),
-                             bc=draw(gen.bcs(name, d)), dirty=draw(st.sampled_from(['clean', 'clean', 'value', 'bc'])))
+                             bc=draw(gen.bcs(name, d)), dirty=draw(st.sampled_from(['clean', 'clean', 'value', 'bc', 'value_changed', 'with_ghosts'])))
                         for _ in range(nvars)]
     else:
         case['vars'] = [dict(comps=draw(gen.face_field(d, styles=('generic', 'int', 'pos', 'zeros'), lo=-2, hi=2))) for _ in range(nvars)]
@@ -159,6 +159,8 @@ def enumerate_cases(tier):
                     yield dict(kind='faceeval', grid=g, nvars=2, vars=fvars, func=fn, args=args, alias='faceeval', enumerated=True)
         yield dict(kind='copy', grid=g, nvars=1, vars=[dict(cvars[0], dirty='value')], enumerated=True)
         yield dict(kind='copy', grid=g, nvars=1, vars=[dict(cvars[0], dirty='bc')], enumerated=True)
+        yield dict(kind='copy', grid=g, nvars=1, vars=[dict(cvars[0], dirty='value_changed')], enumerated=True)
+        yield dict(kind='copy', grid=g, nvars=1, vars=[dict(cvars[0], dirty='with_ghosts')], enumerated=True)
 
 
 def budget(tier):
@@ -267,6 +269,12 @@ def _build_cells(m, case, d):
             v.value[...] = np.array(spec['init'], float)      # same numbers, raises the dirty bit
         elif spec.get('dirty') == 'bc':
             v.BCs.left.c[:] = np.array(v.BCs.left.c)
+        elif spec.get('dirty') == 'value_changed':
+            v.value[...] = np.array(spec['init'], float) * 0.5 + 1.0      # other numbers: the ghost layer is now stale
+        elif spec.get('dirty') == 'with_ghosts':
+            # the documented constructor form that takes the ghost cells as given (not those the BCs would produce)
+            full = np.array(v._value, float) + 0.25
+            v = pf.CellVariable(m, full, BC)
         out.append(v)
     return out
 
